@@ -254,7 +254,13 @@ def gen_case(rng, tier):
             op["filter"] = rng.choice(FILTERS)
         if op["env"] in ("rng-consume", "rng-reseed"):
             op["n"] = rng.randrange(1, 50)
-        if rng.random() < 0.35 and spec.get("rep"):
+        if spec["fn"] in ("bottleneck", "wasserstein", "heat", "sliced_wasserstein") and rng.random() < 0.2:
+            # d(X, X): the same object passed twice; the alternative run passes an equal-valued copy instead
+            spec["b"] = spec["a"]
+            spec["rep"]["b"] = spec["rep"]["a"]
+            spec["same_object"] = True
+            op["alt_rep"] = copy.deepcopy(spec["rep"])
+        elif rng.random() < 0.35 and spec.get("rep"):
             alt = copy.deepcopy(spec["rep"])
             for key in alt:
                 if isinstance(alt[key], list):
@@ -526,6 +532,7 @@ def run_case(case, sched):
             if alt and out[0] == "ok" and spec["fn"] != "obj":
                 sp2 = copy.deepcopy(spec)
                 sp2["rep"] = alt
+                sp2.pop("same_object", None)          # two objects of equal value
                 base_reps = set(rep_tag(spec).split("+"))
                 if not ({"f32", "f16"} & base_reps):          # narrow floats are different values
                     out2 = execute(sp2, "alternative representation")
